@@ -72,7 +72,10 @@ def run_stream(prop, st, tier, seed, wd, replay=None, tag="main", shard=0):
 def shrink(prop, st, tier, seed, wd, inp):
     """greedy delta debugging on the JSON input, batches of candidates per coqc call"""
     best = inp
+    t_end = time.time() + float(os.environ.get("VERIF_SHRINK_BUDGET", "40"))
     for rnd in range(25):
+        if time.time() > t_end:
+            break
         cands = []
         import itertools
         gens = [st.shrinker(best)] if st.shrinker else []
@@ -83,7 +86,7 @@ def shrink(prop, st, tier, seed, wd, inp):
             if V.json_size(c) >= V.json_size(best):
                 continue
             cands.append(c)
-            if len(cands) >= 200:
+            if len(cands) >= 30:
                 break
         if not cands:
             break
@@ -249,7 +252,11 @@ def run_property(prop, tier, replay=None):
     }
     os.makedirs(os.path.join(V.VERIF, "evidence"), exist_ok=True)
     json.dump(ev, open(os.path.join(V.VERIF, "evidence", prop.pid + ".json"), "w"), indent=1)
+    printed = set()
     for f in known_hits:
+        if f.get("id") in printed:
+            continue
+        printed.add(f.get("id"))
         print("KNOWN-FINDING: property=%s %s" % (prop.pid, f.get("what", f.get("id"))))
     for rp, note, noinput in violations:
         V.log("violation: " + note)
